@@ -60,6 +60,8 @@ pub struct ServerSession {
     peer_window_ack_size: Option<u32>,
     bytes_received: u64,
     bytes_received_since_last_ack: u32,
+    #[cfg(feature = "verif-hooks")]
+    verif_uptime_ms: Option<u64>,
 }
 
 impl ServerSession {
@@ -86,6 +88,8 @@ impl ServerSession {
             peer_window_ack_size: None,
             bytes_received: 0,
             bytes_received_since_last_ack: 0,
+            #[cfg(feature = "verif-hooks")]
+            verif_uptime_ms: None,
         };
 
         let mut results = Vec::with_capacity(4);
@@ -1351,6 +1355,16 @@ impl ServerSession {
     }
 
     fn get_epoch(&self) -> RtmpTimestamp {
+        #[cfg(feature = "verif-hooks")]
+        {
+            if let Some(uptime_ms) = self.verif_uptime_ms {
+                let duration = std::time::Duration::from_millis(uptime_ms);
+                let milliseconds =
+                    (duration.as_secs() * 1000) + (duration.subsec_nanos() as u64 / 1_000_000);
+                return RtmpTimestamp::new(milliseconds as u32);
+            }
+        }
+
         match self.start_time.elapsed() {
             Ok(duration) => {
                 let milliseconds =
@@ -1380,6 +1394,21 @@ impl ServerSession {
             stream_id,
         )?;
         Ok(packet)
+    }
+}
+
+#[cfg(feature = "verif-hooks")]
+impl ServerSession {
+    /// Verification hook: every later reading of the session clock returns exactly this uptime
+    /// (in milliseconds since the session was created) until it is set again or cleared.
+    pub fn verif_set_uptime_ms(&mut self, uptime_ms: Option<u64>) {
+        self.verif_uptime_ms = uptime_ms;
+    }
+
+    /// Verification hook: makes the session believe it was created `milliseconds` earlier than it
+    /// was, so the real clock arithmetic can be exercised at large uptimes.
+    pub fn verif_shift_clock(&mut self, milliseconds: u64) {
+        self.start_time = self.start_time - std::time::Duration::from_millis(milliseconds);
     }
 }
 
